@@ -214,6 +214,10 @@ class Lib:
                 k14 = "conform14#%s#2024-02-29" % n
                 t["tr14"].append((k14, tf.conform14, (lambda n=n: X + (D(2024, 2, 29), getattr(gc, n)))))
                 self.sweep.append(("tr14", k14))
+        # the reverse direction is a TEMPORARY (-T) built for the call: several of them at the same epoch, one after the other
+        for n in ["itrf2014_to_gda2020", "itrf2008_to_gda94", "itrf2005_to_gda94", "itrf2020_to_itrf2014", "atrf2014_to_gda2020", "itrf97_to_gda94"]:
+            t["tr14"].append(("conform14#tmpneg#%s" % n, tf.conform14, (lambda n=n: X + (D(2024, 2, 29), -getattr(gc, n)))))
+            t["tr7"].append(("conform7#tmpneg#%s" % n, tf.conform7, (lambda n=n: X + (-getattr(gc, n),))))
         # ... and every call made with a caller-built temporary ellipsoid / projection, one after the other (recycled ids)
         for cls, lst in t.items():
             for (k, _, _) in lst:
